@@ -38,7 +38,9 @@ APPID = "lothar.com/wormhole/text-or-file-xfer"
 NAMES = ["good.txt", "/etc/passwd-vt", "/tmp/abs-vt", "../up.txt", "../../up2", "a/b/c.txt", "dir/", "trail//", "a\\b.txt",
          "..\\..\\win", "", ".", "..", "...", "x" * 200, "ünï✓", "ctl\x07\x1bname", "new\nline", " spaced ", "-rf", "~",
          "canary-outside.txt", "../canary-outside.txt", "pre.file", "pre.dir", "sub/pre.file", "./good2", "a/../../b",
-         123, None, ["l"], {"d": 1}, 1.5, True]
+         123, None, ["l"], {"d": 1}, 1.5, True,
+         # characters that only LOOK like separators and dots (compatibility forms): legal parts of one file name
+         "\u2025\uff0fcanary-outside.txt", "pre.dir\uff0fevil", "\uff0e\uff0e\uff0fup3", "\u2024\u2024\u2215up4", "\uff47ood.txt"]
 MEMBERS = ["ok.txt", "sub/ok2.txt", "../x", "../../y", "/abs-member-vt", "a/../../b", "", ".", "..", "./", "../",
            "sub/", "sub/../../z", "dup", "dup", "..\\w", "pre.file", "../pre.file", "../pre.dir/evil", "DEST-evil/q",
            "../DEST-evil/q", "../DEST.tmp", "ünï/✓", "very/" * 20 + "deep", "link-to-outside", "setuid", "zeroperm", "dirperm-file"]
